@@ -256,7 +256,7 @@ impl Batch {
                 std::fs::write(cdir.join("src/main.rs"), main).unwrap();
             }
             let out = Cmd::new("cargo")
-                .args(["build", "--offline", "--keep-going", "--message-format=short"])
+                .args(["build", "--offline", "--keep-going", "--message-format=json"])
                 .cwd(&ws)
                 .env("CARGO_NET_OFFLINE", "true")
                 .env("RUSTFLAGS", "-Awarnings")
@@ -270,30 +270,64 @@ impl Batch {
             if out.ok() {
                 break;
             }
-            // attribute errors to modules by file name
+            // attribute errors to modules by file name, following macro
+            // expansion chains (an error inside rt.rs's macros is attributed
+            // to the generated module that invoked the macro)
             let mut newly: BTreeSet<String> = BTreeSet::new();
-            for line in out.stderr.lines() {
-                if let Some(pos) = line.find("src_all/") {
-                    let rest = &line[pos + 8..];
-                    if let Some(end) = rest.find(".rs") {
-                        let m = &rest[..end];
-                        if line.contains("error") && self.units.iter().any(|u| u.module == m) {
-                            newly.insert(m.to_string());
+            let mut per_module: BTreeMap<String, Vec<String>> = BTreeMap::new();
+            let mut unattributed: Vec<String> = vec![];
+            for line in out.stdout.lines() {
+                let Ok(v) = serde_json::from_str::<serde_json::Value>(line) else { continue };
+                if v["reason"] != "compiler-message" || v["message"]["level"] != "error" {
+                    continue;
+                }
+                let msg = v["message"]["message"].as_str().unwrap_or("").to_string();
+                if msg.starts_with("aborting due to") {
+                    continue;
+                }
+                let mut files: Vec<String> = vec![];
+                fn walk(span: &serde_json::Value, files: &mut Vec<String>) {
+                    if let Some(f) = span["file_name"].as_str() {
+                        files.push(format!("{}:{}", f, span["line_start"]));
+                    }
+                    if !span["expansion"].is_null() {
+                        walk(&span["expansion"]["span"], files);
+                    }
+                }
+                if let Some(spans) = v["message"]["spans"].as_array() {
+                    for sp in spans {
+                        walk(sp, &mut files);
+                    }
+                }
+                let mut hit = false;
+                for f in &files {
+                    if let Some(pos) = f.find("src_all/") {
+                        let rest = &f[pos + 8..];
+                        if let Some(end) = rest.find(".rs") {
+                            let m = &rest[..end];
+                            if self.units.iter().any(|u| u.module == m) {
+                                newly.insert(m.to_string());
+                                per_module.entry(m.to_string()).or_default().push(format!("{f}: {msg}"));
+                                hit = true;
+                            }
                         }
                     }
+                }
+                if !hit {
+                    unattributed.push(format!("{}: {}", files.join(" <- "), msg));
                 }
             }
             if newly.is_empty() || round == 3 {
                 self.infra_error = Some(format!(
-                    "batch build failed without attributable module errors:\n{}",
-                    out.stderr.lines().filter(|l| l.contains("error")).take(20).collect::<Vec<_>>().join("\n")
+                    "batch build failed without attributable module errors:\n{}\n{}",
+                    unattributed.iter().take(10).cloned().collect::<Vec<_>>().join("\n"),
+                    out.stderr.lines().filter(|l| l.contains("error")).take(10).collect::<Vec<_>>().join("\n")
                 ));
                 return;
             }
             for m in &newly {
-                let msgs: Vec<&str> =
-                    out.stderr.lines().filter(|l| l.contains(&format!("src_all/{m}.rs")) && l.contains("error")).take(6).collect();
-                self.compile_errors.insert(m.clone(), msgs.join("\n"));
+                let msgs = per_module.get(m).cloned().unwrap_or_default();
+                self.compile_errors.insert(m.clone(), msgs.into_iter().take(6).collect::<Vec<_>>().join("\n"));
                 excluded.insert(m.clone());
             }
         }
